@@ -21,14 +21,20 @@ func verifIsIPv6Char(c byte) bool { // IPv6 literals, incl. v4-mapped and zone i
 }
 
 func verifSymPeer(tag string, v6 bool) *core.PeerInfo {
+	return verifSymPeerN(tag, v6, verif.Bound("symbolic_peer_id_bytes", 3, 20), 0, verif.Bound("ip_len", 4, 8))
+}
+
+func verifSymPeerN(tag string, v6 bool, idBytes, minLen, maxLen int) *core.PeerInfo {
 	// Peer id: every byte is hex-encoded independently of the others; the quick
 	// tier makes a spread of positions symbolic, the thorough tier all 20.
 	var id core.PeerID
 	for i := range id {
 		id[i] = byte(0x10*i + 7)
 	}
-	pos := []int{0, 9, 19}
-	if verif.Bound("symbolic_peer_id_bytes", 3, 20) == 20 {
+	pos := []int{19, 0, 9}[:1]
+	if idBytes == 3 {
+		pos = []int{0, 9, 19}
+	} else if idBytes == 20 {
 		pos = pos[:0]
 		for i := 0; i < 20; i++ {
 			pos = append(pos, i)
@@ -37,7 +43,7 @@ func verifSymPeer(tag string, v6 bool) *core.PeerInfo {
 	for _, i := range pos {
 		id[i] = verif.Byte(tag + "id")
 	}
-	n := verif.Len(tag+"iplen", 0, verif.Bound("ip_len", 4, 8))
+	n := verif.Len(tag+"iplen", minLen, maxLen)
 	ip := verif.String(tag+"ip", n)
 	for i := 0; i < n; i++ {
 		if v6 {
